@@ -396,7 +396,12 @@ func init() {
 		Pre:         c12RunTLC,
 		Rule:        "in-process cluster (1-2 leaders, 2 partitions, 1-2 followers per partition), two tables on one stream with different partition keys (ta by x; tb by y with a WHERE) so that per-table offsets on a follower diverge; base schedule of 3 (quick) / 4 (thorough) inserts delivered eagerly plus every placement of <=2 (quick) / <=3 on the focus follower (thorough) fault events {flush ta only, flush all, clean stop/start, crash (restart from the directory image of that instant), cut, reconnect, gate (delay), ungate, restart leader, snapshot, restore (restart from the older image)} at every position, from the empty cluster and (1 leader, 1 follower per partition) from a state in which every table of every follower already has a stored offset, plus the same with tb added to every node while the followers are already following (late subscription) at every position, alone and with every single fault before or after it, enabledness respected; every event runs to exact quiescence; at the end all nodes are healed and caught up; oracle: per table the rows summed over partitions equal a standalone DB fed the same points (no point lost, none applied twice), redundant followers identical, leader queries equal standalone; non-trivial = schedule with a fault after the first insert",
 		Assumptions: []string{"reconnect policy of server.followSource re-implemented in the cluster driver (same Follow request, EarliestOffset advanced to the last inserted entry)", "a crash image is taken at quiescence (no kill instants inside a flush; those are C02's subject)"},
-		Shards:      func(tier string) int { return 16 },
+		Shards: func(tier string) int {
+			if tier == "thorough" {
+				return 32 // short-lived workers: every closed zenodb instance leaves goroutines and buffers behind
+			}
+			return 16
+		},
 		Budget: func(tier string) time.Duration {
 			if tier == "thorough" {
 				return 50 * time.Minute
